@@ -72,4 +72,15 @@ META["C09"] = dict(
         "returned, later write/open fail, nothing pending'.",
    technique="TLA+ spec (SessionLife.tla, liveness under fairness) + TLC MC + schedules and fault sweep replayed via hooks/SimPipe + TLC trace validation",
    design_ref="DESIGN.md 3/C09")
+META["C14"] = dict(
+   text="Heartbeat.tla is a discrete-time model of the monitor with the configuration chosen in Init (interval, timeout incl. T<I "
+        "and T=I, round-trip delay below the timeout, the number of requests the peer answers before it falls silent). TLC checks "
+        "on the whole grid (200 configurations x 24 time units, exhaustive and deterministic) that the per-request-deadline rule "
+        "never closes a healthy session and detects a silent peer within timeout + interval of its last answer, and that the tick "
+        "rule of the pinned code violates the first clause. Every configuration of the grid (scaled to seconds, extra half-unit "
+        "delays, with/without stream traffic, with a peer that also stops reading) is replayed on a real client Session in "
+        "virtual time against a scripted peer; Trace_Heartbeat.tla judges every closure (permitted only once the peer has left a "
+        "request unanswered) and the end of every timeline (silent peer closed in time, waiters released).",
+   technique="TLA+ spec (Heartbeat.tla, discrete time) + TLC exhaustive grid + every grid point replayed in virtual time + TLC trace validation",
+   design_ref="DESIGN.md 3/C14")
 NOT_YET = "check not built yet in this round (planned: DESIGN.md section 3); not claimed"
